@@ -9,7 +9,7 @@ package csr
 //vsym:model net.ParseIP m14ParseIP
 //vsym:model crypto/rand.Read m14RandRead
 //vsym:replay same-harness
-//vsym:expect-cover C14.fc.ok C14.fc.too-few C14.fc.too-many C14.fc.bad-policy C14.ok-json C14.ok-legacy C14.err-message C14.err-logname C14.err-ip C14.err-version C14.default-version C14.json-null C14.sequence C14.two-requests
+//vsym:expect-cover C14.fc.ok C14.fc.too-few C14.fc.too-many C14.fc.bad-policy C14.ok-json C14.ok-legacy C14.err-message C14.err-logname C14.err-ip C14.err-version C14.default-version C14.json-null C14.wrong-type-falls-back C14.sequence C14.two-requests
 //vsym:bound H14_forcecommand: 0..8 tokens spread over the argument vector in three ways (one per argument, all in one argument, first two joined); the second-to-last token 4 symbolic non-space bytes (NONS, NSOK or anything else), the others 1 symbolic non-space byte
 //vsym:bound H14_newreqparam: SSH_ORIGINAL_COMMAND either JSON (decoder outcome: arbitrary attributes with 0..3- or 7-byte symbolic version, 0..1-byte user/host; or null) or legacy text built from 0..2 tokens (req, SSHClientVersion, HardKey, a 1-byte symbolic key) with 0- or 3-byte symbolic values; LOGNAME 0..2 symbolic bytes; SSH_CONNECTION 0..2 fields of 1 symbolic byte; argv from {3 valid tokens, split tokens, too few, bad policy}; the message shapes and the environment shapes are swept one factor at a time (NewReqParam reads them independently)
 //vsym:bound H14_two_requests: two JSON requests in one process, each stating or omitting the client version, user (1 symbolic byte) and host (1 symbolic byte): 64 combinations; the second is judged as in a fresh process
@@ -65,6 +65,11 @@ func m14JSONUnmarshal(data []byte, v any) error {
 			*pp = nil
 		}
 		return nil
+	case 3:
+		// a wrongly typed value: the other fields are stored, then the error is reported
+		o := m14Obj
+		p.SSHClientVersion, p.Username, p.Hostname, p.HardKey = o.SSHClientVersion, o.Username, o.Hostname, o.HardKey
+		return errors.New("model: json: cannot unmarshal string into Go struct field Attributes.ifVer of type int")
 	case 2:
 		// a key that occurs sets its field, a key that does not occur leaves
 		// the field as it was (an empty / zero value in m14Obj stands for
@@ -183,9 +188,10 @@ func H14_newreqparam() {
 	var cmd string
 	kind := 0
 	if focus == 0 {
-		kind = vChoose(3, "command-kind") // 0 JSON object, 1 JSON null, 2 legacy / other text
+		kind = vChoose(4, "command-kind") // 0 JSON object, 1 JSON null, 2 legacy / other text, 3 a JSON object with a wrongly typed field (decoding fails after other fields were stored) whose text carries legacy tokens
 	}
 	var declaredVersion, declaredUser, declaredHost string
+	wrongType := false
 	legacyHasVersion := false
 	switch kind {
 	case 0:
@@ -203,6 +209,18 @@ func H14_newreqparam() {
 		m14JSONOutcome = 1
 		cmd = "null"
 		vReach("C14.json-null")
+	case 3:
+		// encoding/json reports the type error only after decoding the rest
+		m14JSONOutcome = 3
+		m14Obj = &message.Attributes{SSHClientVersion: "9.9", HardKey: true, Username: "eve", Hostname: "evil"}
+		u, h := vNondetString("luser", 1), vNondetString("lhost", 1)
+		vAssume(vAnd(vAnd(u[0] > 0x20, u[0] < 0x7f), vAnd(u[0] != '@', u[0] != '"')))
+		vAssume(vAnd(vAnd(h[0] > 0x20, h[0] < 0x7f), vAnd(h[0] != '@', h[0] != '"')))
+		vAssume(vAnd(u[0] != '\\', h[0] != '\\'))
+		cmd = "{\"sshClientVersion\":\"9.9\",\"hardKey\":true,\"username\":\"eve\",\"hostname\":\"evil\",\"ifVer\":\"6\",\"note\":\" req=" + u + "@" + h + " \"}"
+		declaredUser, declaredHost = u, h
+		kind = 2 // judged as the legacy text it falls back to
+		wrongType = true
 	case 2:
 		m14JSONOutcome = 0
 		var toks []string
@@ -334,6 +352,11 @@ func H14_newreqparam() {
 	vAssert(argKind < 2, "C14.forced-command-must-carry-a-valid-policy")
 	vAssert(string(p.NamespacePolicy) == wantPolicy && p.HandlerName == "regular", "C14.policy-and-handler-from-the-forced-command")
 	vAssert(vEqString(p.ReqUser, declaredUser) && vEqString(p.ReqHost, declaredHost), "C14.client-user-and-host-copied-verbatim")
+	if wrongType {
+		// nothing of the failed JSON attempt shows in the legacy result
+		vAssert(p.Attrs != nil && !p.Attrs.HardKey, "C14.failed-json-attempt-leaves-no-trace")
+		vReach("C14.wrong-type-falls-back")
+	}
 	// version: declared major.minor, or 0.0 when a legacy message omits it
 	_ = legacyHasVersion
 	if kind == 2 && declaredVersion == "" {
